@@ -128,7 +128,7 @@ Proof.
   rewrite (pyindex_in (tt_ln T) (zlen s - 1) ll);
     [| unfold zlen; lia | unfold zlen; replace (Z.to_nat (Z.of_nat (length s) - 1)) with (length s - 1) by lia; exact ELN].
   cbn [bind].
-  rewrite pyslice_prefix by lia. replace (Z.to_nat (Z.of_nat (S n1) - 1)) with n1 by lia.
+  rewrite ?pyslice_no_lower. rewrite pyslice_prefix by lia. replace (Z.to_nat (Z.of_nat (S n1) - 1)) with n1 by lia.
   unfold t_ip. destruct (find_entry (firstn n1 s) (tt_grammar T)) as [e|] eqn:EIP; cbn [dict_get bind option_map catch exn_eqb oadd levelZ]; [|reflexivity].
   match goal with |- context [mwhile fuel ?c ?b ?i ?k] =>
     replace i with (firstn n1 s, Z.of_nat (te_ip e), Z.of_nat (S n1 + 0)) by (repeat f_equal; lia);
@@ -137,9 +137,9 @@ Proof.
   - rewrite <- t_trans_gen. destruct (t_trans T n1 s) as [x|]; cbn [catch exn_eqb oadd levelZ]; [|reflexivity].
     f_equal. lia.
   - intros ch cl e0. reflexivity.
-  - intros ch cl j Hj. cbn beta iota. unfold zlen. rewrite skipn_length.
+  - intros ch cl j Hj. cbn beta iota zeta. unfold zlen. rewrite skipn_length.
     destruct (Nat.leb_spec (length s - j) n1); cbn [negb]; [apply Z.leb_gt | apply Z.leb_le]; lia.
-  - intros ch cl j Hj. cbn beta iota. rewrite window_slice by exact Hj.
+  - intros ch cl j Hj. cbn beta iota zeta. rewrite window_slice by exact Hj.
     rewrite pyslice_removelast. unfold t_cp.
     destruct (find_entry (removelast (firstn (S n1) (skipn j s))) (tt_grammar T)) as [e1|]; cbn [dict_get bind]; [|reflexivity].
     rewrite (pyindex_last _ 0%N) by (apply window_nonempty; exact Hj). cbn [bind].
@@ -186,7 +186,7 @@ Proof.
     rewrite (pyindex_in (sc_ln Sc) (zlen s) ll);
       [| unfold zlen; lia | unfold zlen; rewrite Nat2Z.id; exact ELN].
     cbn [bind].
-    rewrite pyslice_prefix by lia. replace (Z.to_nat (Z.of_nat (S n1) - 1)) with n1 by lia.
+    rewrite ?pyslice_no_lower. rewrite pyslice_prefix by lia. replace (Z.to_nat (Z.of_nat (S n1) - 1)) with n1 by lia.
     destruct (first_level (firstn n1 s) (sc_ip Sc)) as [li|] eqn:EIP; cbn [dict_get bind catch exn_eqb oadd levelZ]; [|reflexivity].
     match goal with |- context [mwhile fuel ?c ?b ?i ?k] =>
       replace i with (firstn n1 s, Z.of_nat li, Z.of_nat (S n1 + 0)) by (repeat f_equal; lia);
@@ -195,9 +195,9 @@ Proof.
     + rewrite <- s_trans_gen. destruct (s_trans Sc n1 s) as [x|]; cbn [catch exn_eqb oadd levelZ]; [|reflexivity].
       f_equal. lia.
     + intros ch cl e0. reflexivity.
-    + intros ch cl j Hj. cbn beta iota. unfold zlen. rewrite skipn_length.
+    + intros ch cl j Hj. cbn beta iota zeta. unfold zlen. rewrite skipn_length.
       destruct (Nat.leb_spec (length s - j) n1); cbn [negb]; [apply Z.leb_gt | apply Z.leb_le]; lia.
-    + intros ch cl j Hj. cbn beta iota. rewrite window_slice by exact Hj.
+    + intros ch cl j Hj. cbn beta iota zeta. rewrite window_slice by exact Hj.
       destruct (first_level (firstn (S n1) (skipn j s)) (sc_cp Sc)) as [a|]; cbn [dict_get bind]; [|reflexivity].
       repeat f_equal. lia.
     + reflexivity.
